@@ -63,6 +63,12 @@ def run_unit(unit, acc):
     image = sorted({li.label.name for li in conv.label_infos})
     for member in image:
         check_case(dict(unit, kind="canonical", member=member), acc)
+    # a registered name followed / preceded by characters that are not part of it is another string
+    decorated = []
+    for n in list(gold)[:6] + list(gold)[-3:]:
+        decorated += [n + "\x00", n + "\x00\x00", "\x00" + n, n + "\n", n + "\t", n + "\u200b", n.upper() + "\x00"]
+    for s_ in decorated:
+        check_case(dict(unit, kind="unregistered", name=s_), acc)
     other = ref.golden("traffic_light" if fam == "autoware" else "autoware", task, False)
     for s in ref.UNREGISTERED + sorted(k for k in other if k not in gold and k not in [li.name for li in conv.label_infos]):
         check_case(dict(unit, kind="unregistered", name=s), acc)
